@@ -28,12 +28,68 @@ class Ctx:
     def rng(self, *salt):
         return random.Random(f"{self.seed}|{'|'.join(map(str, salt))}")
 
+    run = None      # the Run the cases are recorded in (set by main)
+
     def cases(self, n_total):
-        """Case indices of this shard."""
-        return range(self.shard, n_total, self.nshards)
+        """Case indices of this shard.  While a case is being executed the Run
+        knows which (seed, tier, case index) it is, so that every witness
+        carries what a generic replay needs."""
+        for i in range(self.shard, n_total, self.nshards):
+            if self.run is not None:
+                self.run.case_ref = {"seed": self.seed, "tier": self.tier,
+                                     "case": i}
+            yield i
+        if self.run is not None:
+            self.run.case_ref = None
 
     def pick(self, quick, thorough):
         return thorough if self.tier == "thorough" else quick
+
+
+def generic_replay(mod, pid, path):
+    """Replay for checks whose cases are a pure function of (seed, case index):
+    re-executes exactly the recorded case against the current tree (the case
+    is regenerated from its index; the witness itself stays the human-readable
+    record).  Exit 1 + VIOLATION line if a violation is observed again."""
+    with open(path) as f:
+        rec = json.load(f)
+    ref = (rec.get("witness") or {}).get("_replay")
+    if not ref and getattr(mod, "REPLAY_RERUNS_TIER", False):
+        # the violation came from an exhaustive enumeration that is not
+        # indexed by case: re-run the whole (fast) tier in this process and
+        # report the recorded mechanism if it is observed again
+        run = mod.new_run()
+        tier = rec.get("tier", "quick")
+        os.environ["VERIF_TIER"] = tier
+        ctx = Ctx(rec.get("seed", 0), tier, 0, 1)
+        ctx.run = run
+        mod.run(run, ctx)
+        same = [v for v in run.violations if v["mechanism"] == rec.get("mechanism")]
+        for v in same:
+            print(f"VIOLATION property={pid} replay={path}\n"
+                  f"  mechanism={v['mechanism']} kind={v['kind']}")
+        if not same:
+            print(f"[{pid}] replay: mechanism {rec.get('mechanism')} not observed "
+                  f"on the current tree ({run.evaluations} evaluations)")
+        return 1 if same else 0
+    if not ref:
+        print(f"[{pid}] replay: witness carries no case reference "
+              f"(written by an older version); re-run the tier instead")
+        return 2
+    run = mod.new_run()
+    ctx = Ctx(ref["seed"], ref["tier"], ref["case"], 10 ** 12)
+    ctx.run = run
+    os.environ["VERIF_TIER"] = ref["tier"]
+    mod.run(run, ctx)
+    if run.violations:
+        for v in run.violations:
+            print(f"VIOLATION property={pid} replay={path}\n"
+                  f"  mechanism={v['mechanism']} kind={v['kind']}")
+        return 1
+    print(f"[{pid}] replay: case {ref['case']} (seed {ref['seed']}, "
+          f"{ref['tier']}) shows no violation on the current tree "
+          f"({run.evaluations} evaluation(s))")
+    return 0
 
 
 def main(argv=None):
@@ -53,12 +109,16 @@ def main(argv=None):
     mod = importlib.import_module(f"pvm.checks.{a.pid.lower()}")
 
     if a.replay:
-        return mod.replay(a.replay)
+        if hasattr(mod, "replay"):
+            return mod.replay(a.replay)
+        return generic_replay(mod, a.pid, a.replay)
 
     if a.shard:
         i, n = map(int, a.shard.split("/"))
         run = mod.new_run()
-        mod.run(run, Ctx(seed, tier, i, n))
+        ctx = Ctx(seed, tier, i, n)
+        ctx.run = run
+        mod.run(run, ctx)
         with open(a.partial, "w") as f:
             json.dump(run.to_partial(), f, default=repr)
         return 0
@@ -66,7 +126,9 @@ def main(argv=None):
     nshards = getattr(mod, "SHARDS", {}).get(tier, 1)
     run = mod.new_run()
     if nshards <= 1:
-        mod.run(run, Ctx(seed, tier, 0, 1))
+        ctx = Ctx(seed, tier, 0, 1)
+        ctx.run = run
+        mod.run(run, ctx)
         return run.finish(tier, seed)
 
     timeout = getattr(mod, "SHARD_TIMEOUT", {}).get(tier, 1500)
